@@ -1055,7 +1055,7 @@ class QueryBuilder(Selectable, Term):  # type:ignore[misc]
         """
         def _replace(term: Any) -> Any:
             return (
-                _keep_automatic_alias(term, term.replace_table(current_table, new_table))
+                term.replace_table(current_table, new_table)
                 if isinstance(term, (Term, Join))
                 else term
             )
@@ -2096,16 +2096,8 @@ def _replace_join_item(item: Any, current_table: Table | None, new_table: Table 
         # only tables compare by value; a set operation inherits Term.__eq__, which builds a criterion
         return _replacement_for(item, current_table, new_table) if item == current_table else item
     if isinstance(item, Term):
-        return _keep_automatic_alias(item, item.replace_table(current_table, new_table))
+        return item.replace_table(current_table, new_table)
     return item
-
-
-def _keep_automatic_alias(source: Any, replaced: Any) -> Any:
-    """A source rewritten by replace_table is still the statement's sqN (a builder call alone would start un-aliased)."""
-    if getattr(source, "_automatic_alias", False) is True:
-        replaced.alias = source.alias
-        replaced._automatic_alias = True
-    return replaced
 
 
 class Join:
